@@ -509,3 +509,90 @@ def _replace_first_phi(x, repl):
                 return copy.deepcopy(repl)
             return self.generic_visit(n)
     return T().visit(copy.deepcopy(x))
+
+
+# ----------------------------------------------------------------------------
+# specialisation of an expression under an assignment of boolean flags (mode analysis)
+# ----------------------------------------------------------------------------
+
+_NONNULL_CALLS = {"deg2rad", "array", "asarray", "zeros", "ones", "abs", "cos", "sin", "exp", "stack", "norm", "list", "dict", "tuple", "len",
+                  "copy", "deepcopy", "minimum", "maximum", "append", "arange", "sorted"}
+
+
+def specialise(expr, env):
+    """fold `expr` with the names in env ({name: python constant}) replaced by constants: conditional expressions, `not`,
+    and/or, `is None` tests on values that are syntactically None / certainly not None are decided.  Returns a new AST."""
+
+    def definitely_not_none(e):
+        if isinstance(e, ast.Constant):
+            return e.value is not None
+        if isinstance(e, (ast.BinOp, ast.List, ast.Tuple, ast.Dict, ast.ListComp, ast.Compare, ast.JoinedStr)):
+            return True
+        if isinstance(e, ast.Call):
+            return call_name(e) in _NONNULL_CALLS
+        return False
+
+    class T(ast.NodeTransformer):
+        def visit_Name(self, n):
+            if isinstance(n.ctx, ast.Load) and n.id in env:
+                return ast.Constant(value=env[n.id])
+            return n
+
+        def visit_IfExp(self, n):
+            self.generic_visit(n)
+            if isinstance(n.test, ast.Constant):
+                return n.body if n.test.value else n.orelse
+            return n
+
+        def visit_Call(self, n):
+            self.generic_visit(n)
+            if call_name(n) == "__gamma__" and len(n.args) == 3:
+                t = n.args[0]
+                if isinstance(t, ast.Constant):
+                    return n.args[1] if t.value else n.args[2]
+                return ast.Call(func=ast.Name(id="__phi__", ctx=ast.Load()), args=[n.args[1], n.args[2]], keywords=[])
+            return n
+
+        def visit_UnaryOp(self, n):
+            self.generic_visit(n)
+            if isinstance(n.op, ast.Not) and isinstance(n.operand, ast.Constant):
+                return ast.Constant(value=not n.operand.value)
+            return n
+
+        def visit_BoolOp(self, n):
+            self.generic_visit(n)
+            vals = []
+            for v in n.values:
+                if isinstance(v, ast.Constant) and isinstance(v.value, bool):
+                    if isinstance(n.op, ast.And) and not v.value:
+                        return ast.Constant(value=False)
+                    if isinstance(n.op, ast.Or) and v.value:
+                        return ast.Constant(value=True)
+                    continue
+                vals.append(v)
+            if not vals:
+                return ast.Constant(value=isinstance(n.op, ast.And))
+            if len(vals) == 1:
+                return vals[0]
+            n.values = vals
+            return n
+
+        def visit_Compare(self, n):
+            self.generic_visit(n)
+            if len(n.ops) == 1 and isinstance(n.ops[0], (ast.Is, ast.IsNot)) and isinstance(n.comparators[0], ast.Constant) and n.comparators[0].value is None:
+                l = n.left
+                if isinstance(l, ast.Constant) and l.value is None:
+                    return ast.Constant(value=isinstance(n.ops[0], ast.Is))
+                if definitely_not_none(l):
+                    return ast.Constant(value=isinstance(n.ops[0], ast.IsNot))
+            return n
+    return T().visit(copy.deepcopy(expr))
+
+
+def path_feasible(flow, node, env):
+    """False if a fact on a branch edge dominating `node` is contradicted under env (after expansion and folding)"""
+    for a, t in facts_at(flow, node):
+        v = specialise(flow.expand(a, node), env)
+        if isinstance(v, ast.Constant) and isinstance(v.value, bool) and v.value != t:
+            return False
+    return True
